@@ -10,6 +10,7 @@ import (
 	"gopkg.in/typ.v4/slices"
 	"verif/lib/enum"
 	"verif/lib/ev"
+	"verif/lib/spell"
 )
 
 const dirty = 9000
@@ -393,6 +394,7 @@ func main() {
 		typedSplice(e, "struct{}", []struct{}{{}, {}}, func(a, b struct{}) bool { return true })
 		typedSplice(e, "[0]int", [][0]int{{}, {}}, func(a, b [0]int) bool { return true })
 		typedSplice(e, "bool", []bool{false, true, true, false, true}, func(a, b bool) bool { return a == b })
+		typedSplice(e, "struct with lying Equal/IsZero/String methods", []spell.Liar{{0}, {1}, {2}, {3}}, func(a, b spell.Liar) bool { return a == b })
 		{
 			mkBig := func(tag int) bigElem {
 				var b bigElem
